@@ -510,3 +510,57 @@ func ComposeCrud(u *Universe, rng *rand.Rand, firstID int) []*Model {
 	}
 	return models
 }
+
+// ReplayNames maps the table names of spec/CrudModel.tla to the table structs of ReplayModel
+// ("A" would give the SQL table "as", a reserved word).
+var ReplayNames = map[string]string{"A": "Alpha", "B": "Beta", "C": "Gamma", "L": "Link"}
+
+// ReplayModel is the model file that declares exactly the tables of CrudModel!Meta for the given constants:
+// Alpha(V), Beta(IdA -> Alpha with action od, nullable or not; W; UNIQUE(IdA) or UNIQUE(IdA, W)),
+// Gamma(IdB -> Beta, NO ACTION) and the link table Link(IdA -> Alpha CASCADE, IdB -> Beta nullable SET NULL).
+func ReplayModel(u *Universe, id int, od string, uniqB, nullB bool) *Model {
+	key := func(name, target, onDelete string, nullable bool) Field {
+		te := basic("int64")
+		if nullable {
+			te = ref("sql.NullInt64")
+		}
+		return Field{Name: name, Exported: true, TE: te, Guard: noGuard, Foreign: target, OnDelete: onDelete}
+	}
+	beta := Table{Goname: "Beta", Fields: []Field{plain("Id", basic("int64")), key("IdA", "Alpha", od, nullB), plain("W", basic("int"))}}
+	if uniqB {
+		beta.Comments = []string{"gomacro:SQL ADD UNIQUE(IdA)"}
+	} else {
+		beta.Comments = []string{"gomacro:SQL ADD UNIQUE(IdA, W)"}
+	}
+	return &Model{ID: id, Env: u.Env, Tables: []Table{
+		{Goname: "Alpha", Fields: []Field{plain("Id", basic("int64")), plain("V", basic("string"))}},
+		beta,
+		{Goname: "Gamma", Fields: []Field{plain("Id", basic("int64")), key("IdB", "Beta", "", false)}},
+		{Goname: "Link", Fields: []Field{key("IdA", "Alpha", "CASCADE", false), key("IdB", "Beta", "SET NULL", true)}},
+	}}
+}
+
+// DirectiveRich is a model file in which every collection the SQL-side generators build per table holds at least
+// three entries (UNIQUE sets, CHECKs, select keys, custom queries, foreign keys): an order taken from a Go map,
+// or from a sort that is not total, shows when the generation is repeated (C07).
+func DirectiveRich(id int) *Model {
+	key := func(name, target, onDelete string) Field {
+		return Field{Name: name, Exported: true, TE: basic("int64"), Guard: noGuard, Foreign: target, OnDelete: onDelete}
+	}
+	item := Table{Goname: "Item", Fields: []Field{plain("Id", basic("int64")), plain("A", basic("int")), plain("B", basic("string")), plain("C", basic("int")),
+		plain("D", basic("string")), plain("E", basic("int")), key("Owner", "Owner", "CASCADE"), key("Maker", "Owner", ""), key("Depot", "Depot", "SET NULL")},
+		Comments: []string{
+			"gomacro:SQL ADD UNIQUE(A, B)", "gomacro:SQL ADD UNIQUE(C)", "gomacro:SQL ADD UNIQUE(D, E)", "gomacro:SQL ADD UNIQUE(B, E)", "gomacro:SQL ADD UNIQUE(Maker)",
+			"gomacro:SQL ADD CHECK(A > 0)", "gomacro:SQL ADD CHECK(C > 0)", "gomacro:SQL ADD CHECK(E > 0)",
+			"gomacro:SQL _SELECT KEY(A)", "gomacro:SQL _SELECT KEY(B, C)", "gomacro:SQL _SELECT KEY(D)",
+			"gomacro:QUERY SetA UPDATE Item SET A = $v$ WHERE B = $w$", "gomacro:QUERY SetC UPDATE Item SET C = $v$ WHERE D = $w$", "gomacro:QUERY SetE UPDATE Item SET E = $v$ WHERE B = $w$ OR D = $w$",
+		}}
+	return &Model{ID: id, Tables: []Table{
+		{Goname: "Owner", Fields: []Field{plain("Id", basic("int64")), plain("Name", basic("string"))}, Comments: []string{"gomacro:SQL ADD UNIQUE(Name)"}},
+		{Goname: "Depot", Fields: []Field{plain("Id", basic("int64")), plain("City", basic("string")), plain("Zip", basic("string"))},
+			Comments: []string{"gomacro:SQL ADD UNIQUE(City, Zip)", "gomacro:SQL ADD UNIQUE(Zip)", "gomacro:SQL ADD UNIQUE(City)"}},
+		item,
+		{Goname: "Stock", Fields: []Field{key("Item", "Item", "CASCADE"), key("Depot", "Depot", "CASCADE"), key("Owner", "Owner", ""), plain("N", basic("int"))},
+			Comments: []string{"gomacro:SQL ADD UNIQUE(Item, Depot)", "gomacro:SQL ADD UNIQUE(Item, Owner)", "gomacro:SQL ADD UNIQUE(Depot, Owner, N)"}},
+	}}
+}
